@@ -45,6 +45,10 @@ func (a *Application) proxyHandler(w http.ResponseWriter, r *http.Request) {
 		return
 	}
 
+	if a.writeRoutingRejection(w, pr, endpoints) {
+		return
+	}
+
 	a.logRequestStart(pr, len(endpoints))
 
 	// Strip the route prefix before forwarding to the backend.
@@ -299,6 +303,35 @@ func (a *Application) buildLogFields(pr *proxyRequest, duration time.Duration) [
 	}
 
 	return fields
+}
+
+// routingRejection returns the routing decision that emptied the candidate list, if that is why
+// there is nobody to send the request to (model not found: 404, model unavailable: 503)
+func routingRejection(pr *proxyRequest, endpoints []*domain.Endpoint) *domain.ModelRoutingDecision {
+	if len(endpoints) > 0 || pr.profile == nil || pr.profile.RoutingDecision == nil {
+		return nil
+	}
+	decision := pr.profile.RoutingDecision
+	if decision.Action != ports.RoutingActionRejected || decision.StatusCode < http.StatusBadRequest {
+		return nil
+	}
+	return decision
+}
+
+// writeRoutingRejection answers with the status the routing strategy decided on instead of
+// letting the empty candidate list surface as a generic bad gateway
+func (a *Application) writeRoutingRejection(w http.ResponseWriter, pr *proxyRequest, endpoints []*domain.Endpoint) bool {
+	decision := routingRejection(pr, endpoints)
+	if decision == nil {
+		return false
+	}
+	pr.requestLogger.Warn("Request rejected by model routing",
+		"model", pr.model, "strategy", decision.Strategy, "reason", decision.Reason, "status", decision.StatusCode)
+	w.Header().Set(constants.HeaderXOllaRoutingStrategy, decision.Strategy)
+	w.Header().Set(constants.HeaderXOllaRoutingDecision, decision.Action)
+	w.Header().Set(constants.HeaderXOllaRoutingReason, decision.Reason)
+	http.Error(w, fmt.Sprintf("Model routing rejected request for %q: %s", pr.model, decision.Reason), decision.StatusCode)
+	return true
 }
 
 func (a *Application) handleEndpointError(w http.ResponseWriter, pr *proxyRequest, err error) {
